@@ -32,12 +32,12 @@ def dump_mir(crate_dir, out_dir, tag, extra=()):
     return p.stdout
 
 
-def sym(ctx, pat):
+def sym(ctx, pat, canonical=None):
     for path, name in ctx.symbols.items():
         if re.search(pat, path):
             return name
-    # not mentioned by the function: declare it anyway so that claims can refer to it
-    return ctx.sym("unused:" + pat)
+    # not mentioned by the function (e.g. after a change): declare it so that claims can refer to it
+    return ctx.sym(canonical or ("unused:" + pat))
 
 
 # ranges: what the language guarantees for Flat types, bounded sizes
@@ -174,7 +174,10 @@ def subst(claim, ctx, rets, path):
         pats = {"T.SIZE": r"<T as .*FlatSized>::SIZE$", "T.ALIGN": r"<T as .*FlatBase>::ALIGN$", "T.MIN_SIZE": r"<T as .*FlatBase>::MIN_SIZE$",
                 "L.SIZE": r"<L as .*FlatSized>::SIZE$", "L.ALIGN": r"<L as .*FlatBase>::ALIGN$",
                 "NEXT.ALIGN": r"<<I as .*TypeIter>::Item as .*FlatBase>::ALIGN$"}
-        return sym(ctx, pats[k])
+        canon = {"T.SIZE": "<T as traits::FlatSized>::SIZE", "T.ALIGN": "<T as traits::FlatBase>::ALIGN", "T.MIN_SIZE": "<T as traits::FlatBase>::MIN_SIZE",
+                 "L.SIZE": "<L as traits::FlatSized>::SIZE", "L.ALIGN": "<L as traits::FlatBase>::ALIGN",
+                 "NEXT.ALIGN": "<<I as utils::iter::TypeIter>::Item as traits::FlatBase>::ALIGN"}
+        return sym(ctx, pats[k], canon[k])
     s = re.sub(r"\{([A-Z]+\.[A-Z_]+)\}", rep_sym, claim)
     for i in (3, 2, 1):
         tag = "R%d" % i if i > 1 else "R"
@@ -296,6 +299,12 @@ def run_obligation(o, funcs_by_crate):
             if "flex" in o.func:
                 consts["XAL"] = M.const_value(ctx, "<flex::FlexVec<T, L> as flatty_base::traits::FlatBase>::ALIGN", pconst).t
         for (p, rets) in stages:
+            # resolve every placeholder first: this may declare symbols the function never mentions
+            for a in o.assume:
+                subst(a, ctx, rets, p)
+            for (_, c) in o.claims:
+                subst(c, ctx, rets, p)
+
             def prelude(extra_assume):
                 names = set()
                 lines = ["(set-logic ALL)"]
